@@ -459,7 +459,8 @@ Definition sums6 (g : geom) (l : rlog) (now : Z) (o : sobs) : bool :=
   (fold_left (fun a b => a + b_fail b) bs 0 =? s_fail o) &&
   (fold_left (fun a b => a + b_drop b) bs 0 =? s_drop o).
 
-Fixpoint cprop_from (g : geom) (calls : list call) (ts : list tobs) (l : rlog) (clock : Z)
+Fixpoint cprop_from (cfg : config) (g : geom) (calls : list call) (ts : list tobs) (l : rlog) (clock : Z)
+         (lsure : Z) (unsure : bool)      (* as in pstate: the last sure throttled admission *)
          (cnt : list nat) (sched : list (nat * Z)) (os : list sobs) : bool * list nat :=
   match sched, os with
   | [], [] => (true, cnt)
@@ -469,18 +470,30 @@ Fixpoint cprop_from (g : geom) (calls : list call) (ts : list tobs) (l : rlog) (
     let tb := nth tid ts dummy_tobs in
     let n := nth tid cnt 2%nat in
     let live := match k_ctx c with CDone => false | _ => true end in
-    let '(l', ok) :=
+    let h := ref_history g l now in
+    let '(l', ok, lsure', unsure') :=
       match n with
       | O => if live && t_rejected tb
-             then (ref_record g l now v_drop, over_limit (ref_history g l now))      (* T1 *)
-             else (l, true)
+             then (ref_record g l now v_drop,
+                   over_limit h &&                                                   (* T1 *)
+                   (* T3: a start action is read + decide, so "the previous throttled admission" is
+                      the latest one among the start actions before this one - also when that call
+                      is still in flight *)
+                   (unsure || negb ((0 <? lsure) && (prop_force <? now - lsure))),
+                   lsure, unsure)
+             else if live
+                  then (l, true,
+                        (if negb (Qle_bool (drop_ratio cfg h) 0) && negb (tie_sign cfg h) then now else lsure),
+                        unsure || tie_sign cfg h)
+                  else (l, true, lsure, unsure)
       | S O => if live && negb (t_rejected tb)
-               then (ref_record g l now (if counts_as_success (k_entry c) (k_out c) then v_success else v_fail), true)
-               else (l, true)
-      | _ => (l, true)
+               then (ref_record g l now (if counts_as_success (k_entry c) (k_out c) then v_success else v_fail), true,
+                     lsure, unsure)
+               else (l, true, lsure, unsure)
+      | _ => (l, true, lsure, unsure)
       end in
     if ok && sums6 g l' now o
-    then cprop_from g calls ts l' now (bump tid cnt) sched' os'
+    then cprop_from cfg g calls ts l' now lsure' unsure' (bump tid cnt) sched' os'
     else (false, cnt)
   | _, _ => (false, cnt)
   end.
@@ -516,7 +529,7 @@ Fixpoint tcheck_all (calls : list call) (cnt : list nat) (ts : list tobs) : bool
 
 Definition conc_prop_ok (c : case) : bool :=
   let g := mkGeom (cbase c) (bucket_duration cfg_gen) gen_buckets in
-  let '(ok, cnt) := cprop_from g (ccalls c) (ctobs c) [] (cbase c)
+  let '(ok, cnt) := cprop_from cfg_gen g (ccalls c) (ctobs c) [] (cbase c) 0 false
                                (repeat O (length (ccalls c))) (csched c) (csobs c) in
   ok && tcheck_all (ccalls c) cnt (ctobs c).
 
